@@ -738,6 +738,19 @@ static void gen_plain_ba(hctx* h) {
 static void gen_bss(hctx* h) {
     static const int ks[] = { 1, 2, 3, 4, 5, 7, 8, 12, 16 };
     static const size_t big[] = { 95, 96, 97, 127, 128, 129, 255, 256, 257 };
+    /* counts around and beyond the tile sizes a cache-blocked transpose would use (512 / 1024 / 2048 / 4096 values) */
+    { static const size_t huge[] = { 511, 513, 1023, 1024, 1025, 1500, 2047, 2049, 3000, 4097 };
+      static const int hk[] = { 2, 3, 4, 8, 12 };
+      for (size_t q = 0; q < sizeof huge / sizeof huge[0]; q++) for (int ki = 0; ki < 5; ki++) {
+          if (!h->thorough && ((q + (size_t)ki) % 2)) continue;
+          size_t n = huge[q]; int k = hk[ki]; size_t vsz = n * (size_t)k;
+          uint8_t* v = h_alloc(vsz); h_fill(h, v, vsz, (int)h_below(h, 5));
+          int kind = k == 4 && (q % 2) ? 1 : k == 8 && (q % 2) ? 2 : 0;
+          run_bss_enc(h, kind, k, (long long)n, vsz, v, vsz);
+          uint8_t* enc = h_alloc(vsz); spec_bss(v, n, k, enc);
+          { char* vs = fmt_hex(v, vsz); run_bss_dec(h, kind, k, (long long)n, "spec", enc, vsz, vs); free(vs); }
+          free(enc); free(v);
+      } }
     for (int kind = 0; kind < 3; kind++) {
         size_t nk = kind == 0 ? sizeof ks / sizeof ks[0] : 1;
         for (size_t ki = 0; ki < nk; ki++) {
